@@ -24,6 +24,9 @@ type flagSpec struct {
 	Deprecated bool   `json:"deprecated"`
 	ShortDepr  bool   `json:"shortDeprecated"`
 	Mutex      []int  `json:"mutex"` // ids of mutually exclusive groups (per command)
+	// features of the carapace-pflag fork
+	Nargs int    `json:"nargs"` // 0 = one value; n > 1: n values; -1: every following word up to the next flag
+	Delim string `json:"delim"` // "" = the default `=`; otherwise the character that attaches an optional / a value argument
 }
 
 type cmdSpec struct {
@@ -110,6 +113,12 @@ func buildTree(spec treeSpec, rec *runRecord) []*cobra.Command {
 			}
 			if fsp.ShortDepr && fsp.Short != "" {
 				f.ShorthandDeprecated = "deprecated"
+			}
+			if fsp.Nargs != 0 {
+				f.Nargs = fsp.Nargs
+			}
+			if fsp.Delim != "" {
+				f.OptargDelimiter = []rune(fsp.Delim)[0]
 			}
 		}
 		cmds[i] = c
@@ -561,8 +570,61 @@ func indexOfCmd(t treeSpec, name string) int {
 	return 0
 }
 
+// genParseFork: the features of the carapace-pflag fork in POSIX flag sets - flags that take several
+// words (Nargs 2, 3, or -1: up to the next flag-like word) and flags whose attached argument is
+// introduced by a character other than `=`
+func genParseFork(r *rng, t treeSpec) parseIn {
+	k := r.intn(len(t.Cmds))
+	c := &t.Cmds[k]
+	c.NoFlagParse = false
+	if r.chance(85) {
+		c.Interspersed = true
+	}
+	delim := pick(r, []string{":", "/", "%", ":"})
+	c.Flags = []flagSpec{
+		{Name: "color", Kind: pick(r, []string{"string", "optString", "string"}), Delim: delim},
+		{Name: "files", Short: pick(r, []string{"f", "f", ""}), Kind: pick(r, []string{"stringSlice", "stringArray"}), Nargs: pick(r, []int{-1, -1, 2, 3})},
+		{Name: "plain", Short: "p", Kind: "string"},
+		{Name: "yes", Short: "y", Kind: "bool"},
+	}
+	if r.chance(25) {
+		// a shorthand together with a custom delimiter
+		c.Flags = append(c.Flags, flagSpec{Name: "level", Short: "e", Kind: pick(r, []string{"string", "optString"}), Delim: delim})
+	}
+	if r.chance(20) {
+		c.Flags = append(c.Flags, flagSpec{Name: "pair", Kind: "stringSlice", Nargs: 2, Delim: delim})
+	}
+	if c.NPos == 0 {
+		c.NPos = 2
+	}
+	c.PosAny = true
+	words := []string{}
+	for p := k; p > 0; p = t.Cmds[p].Parent {
+		words = append([]string{t.Cmds[p].Name}, words...)
+	}
+	files := "--files"
+	if c.Flags[1].Short != "" && r.chance(40) {
+		files = "-f"
+	}
+	for n := r.intn(3); n > 0; n-- {
+		words = append(words, pick(r, [][]string{
+			{files, "a"}, {files, "a", "b"}, {files, "a", "-"}, {files, "a", "b", "-", "x"}, {files, "a", "b", "c", "d"},
+			{"--files=a"}, {"--files=a", "b"}, {files, "a", "--yes"}, {files, "a", "-y", "b"}, {files, "-"}, {files, "--", "x"},
+			{files}, {files, ""}, {files, "a", ""},
+			{"--color" + delim + "red"}, {"--color", "red"}, {"--color=red"}, {"--color" + delim}, {"--color"},
+			{"--plain", "v"}, {"-y"}, {"pos"}, {"--"}, {"--pair", "k", "v"}, {"--pair" + delim + "k", "v"}, {"-e" + delim + "3"}, {"-e", "3"},
+		})...)
+	}
+	words = append(words, pick(r, []string{"", "", "", "x", "-", "--", "--co", "--color" + delim, "--color" + delim + "r", "--color=", "--color",
+		"--files", "--files=", "-f", "-fa", "-y", "-e" + delim, "-e", "-e=", "--level" + delim, "--pair" + delim}))
+	return parseIn{Tree: t, Words: words}
+}
+
 func genParse(r *rng, tier string) interface{} {
 	t := genTree(r)
+	if r.chance(10) {
+		return genParseFork(r, t)
+	}
 	if r.chance(10) {
 		// a flag that sits in two mutually exclusive groups: another member of either group blocks it
 		c := &t.Cmds[r.intn(len(t.Cmds))]
@@ -691,6 +753,20 @@ func genLookupArg(r *rng, tier string) interface{} {
 	for i := range in.Flags {
 		in.Flags[i].Persistent = false
 		in.Flags[i].Mutex = nil
+	}
+	if r.chance(20) {
+		// the fork's features: several words per flag, custom delimiters
+		pi := genParseFork(r, treeSpec{Cmds: []cmdSpec{{Name: "root", Parent: -1, Interspersed: true}}})
+		in.Flags = pi.Tree.Cmds[0].Flags
+		d := ":"
+		for _, f := range in.Flags {
+			if f.Delim != "" {
+				d = f.Delim
+			}
+		}
+		in.Arg = pick(r, []string{"--color" + d, "--color" + d + "r", "--color=", "--color=x", "--color", "--files", "--files=", "--files=a", "-f", "-fa", "-f=a", "-yf", "-y",
+			"-e" + d, "-e" + d + "3", "-e", "-e=", "-e=3", "-ye" + d + "x", "--level" + d + "2", "--pair" + d + "k", "--pair", "--colo", "--color" + d + "a" + d + "b", "--color" + d + "a=b"})
+		return in
 	}
 	shorts := []string{}
 	for _, f := range in.Flags {
